@@ -13,6 +13,8 @@ from vf.terms import INV, COV, CON
 NUMERIC = {'IntegerType', 'ShortType', 'LongType', 'ByteType', 'FloatType', 'DoubleType', 'NumberType',
            'CharType', 'BigDecimalType', 'BigIntegerType'}
 
+WIDEN = ['ByteType', 'ShortType', 'IntegerType', 'LongType', 'FloatType', 'DoubleType']
+
 KEYWORDS = {
     'java': set('abstract assert boolean break byte case catch char class const continue default do double else '
                 'enum extends final finally float for goto if implements import instanceof int interface long '
@@ -54,11 +56,20 @@ def strip_v(x):
 
 
 class Checker:
-    def __init__(self, program, lang, resources=None):
+    def __init__(self, program, lang, resources=None, infer=False):
         from src.ir import ast, types as tp
         self.ast, self.tp = ast, tp
         self.program = program
         self.lang = lang
+        # inference mode (C03): an omitted variable / return type is what the initializer / body
+        # synthesises, omitted type arguments are solved from the expected type and the arguments
+        self.infer = infer
+        self.inf_var = {}        # id(VariableDeclaration) -> term | None
+        self.inf_ret = {}        # id(FunctionDeclaration) -> term | None
+        self.solved = {}         # id(New | FunctionCall) -> {tvar: term} | Unk
+        self.pending = {}        # id(node) -> (node, env, decl, receiver-substitution)
+        self._want = {}
+        self.genv = None
         self.f = program.bt_factory
         self.T = terms.Table.from_program(program)
         self.findings = []
@@ -122,7 +133,18 @@ class Checker:
         if t[0] in terms.UNJUDGED_KINDS or s[0] in terms.UNJUDGED_KINDS:
             return None
         if s[0] == 'b' and t[0] == 'b' and s[1] in NUMERIC and t[1] in NUMERIC:
-            return True                       # some language converts; never a definite error
+            # numeric conversions per language: Kotlin has none (only subtyping, below); Scala widens
+            # along Byte < Short < Int < Long < Float < Double (Char joins at Int); Java and Groovy
+            # convert in ways that depend on primitive/boxed spelling and constants -> never a definite error
+            if self.lang == 'scala':
+                if s[1] in WIDEN and t[1] in WIDEN and (
+                        WIDEN.index(s[1]) < WIDEN.index(t[1]) or
+                        (s[1] == 'CharType' and t[1] in WIDEN[2:])):
+                    return True
+                if s[1] == 'CharType' and t[1] in WIDEN[2:]:
+                    return True
+            elif self.lang != 'kotlin':
+                return True
         if t[0] == 'v':
             return True if (s[0] == 'v' and s[1] == t[1]) else (None if s[0] == 'v' else False)
         if s[0] == 'c' and s[1].startswith('Function') and t[0] == 'c' and not t[1].startswith('Function'):
@@ -203,6 +225,12 @@ class Checker:
     def _ty(self, e, env):
         ast = self.ast
         if isinstance(e, ast.BottomConstant):
+            # every translator prints a typed bottom constant with a cast to its recorded type
+            # (`TODO() as T`, `(T) null`, `???.asInstanceOf[T]`): that is its static type
+            if getattr(e, 't', None) is not None:
+                bt = self.t(e.t)
+                if bt[0] not in terms.UNJUDGED_KINDS:
+                    return bt
             return ('bot',)
         if isinstance(e, ast.IntegerConstant):
             return self.t(e.integer_type) if e.integer_type is not None else terms.to_term(self.f.get_integer_type())
@@ -219,7 +247,11 @@ class Checker:
         if isinstance(e, ast.ArrayExpr):
             return self.t(e.array_type)
         if isinstance(e, ast.New):
-            return self.t(e.class_type)
+            ct = self.t(e.class_type)
+            if self.infer and ct[0] == 'c' and ct[2] and getattr(e.class_type, 'can_infer_type_args', False):
+                m = self.solve_node(e, env)
+                return ('c', ct[1], tuple(m[p] for p in self.class_params(ct[1])))
+            return ct
         if isinstance(e, ast.Lambda):
             return self.t(e.signature)
         if isinstance(e, ast.FunctionReference):
@@ -257,6 +289,18 @@ class Checker:
     def decl_type(self, d):
         ast = self.ast
         if isinstance(d, ast.VariableDeclaration):
+            if self.infer and d.var_type is None:
+                if id(d) not in self.inf_var and self.genv is not None and any(
+                        g is d for g in self.globals.values()):
+                    self.inf_var[id(d)] = None          # cycle guard
+                    try:
+                        self.inf_var[id(d)] = self.ty(d.expr, self.genv)
+                    except Unk:
+                        pass
+                t = self.inf_var.get(id(d))
+                if t is None:
+                    raise Unk('omitted-variable-type-unknown')
+                return t
             return self.t(d.inferred_type)
         if isinstance(d, ast.ParameterDeclaration):
             t = self.t(d.param_type)
@@ -266,8 +310,16 @@ class Checker:
         if isinstance(d, ast.FieldDeclaration):
             return self.t(d.field_type)
         if isinstance(d, ast.FunctionDeclaration):
-            return self.t(d.inferred_type)
+            return self.fun_ret(d)
         raise Unk('decl-' + type(d).__name__)
+
+    def fun_ret(self, d):
+        if self.infer and d.ret_type is None and d.body is not None:
+            t = self.inf_ret.get(id(d))
+            if t is None:
+                raise Unk('omitted-return-type-unknown')
+            return t
+        return self.t(d.inferred_type)
 
     def resolve_call(self, e, env):
         """-> (kind, decl, substitution, approx) ; kind in fun / ref"""
@@ -307,11 +359,14 @@ class Checker:
             return rt[2] if rt[0] == 'w' and rt[1] == COV and rt[2] is not None else rt
         m = dict(m)
         if d.type_parameters:
-            if not e.type_args or len(e.type_args) != len(d.type_parameters):
-                raise Unk('generic-call-without-type-arguments')
-            for p, a in zip(d.type_parameters, e.type_args):
-                m[str(p.name)] = self.t(a)
-        return terms.subst(self.t(d.inferred_type), m)
+            if self.infer and e.can_infer_type_args:
+                m.update(self.solve_node(e, env))
+            else:
+                if not e.type_args or len(e.type_args) != len(d.type_parameters):
+                    raise Unk('generic-call-without-type-arguments')
+                for p, a in zip(d.type_parameters, e.type_args):
+                    m[str(p.name)] = self.t(a)
+        return terms.subst(self.fun_ret(d), m)
 
     # ----------------------------------------------------------------- checks
     def expect(self, rule, e, want, env, what):
@@ -342,6 +397,8 @@ class Checker:
             self.expect(rule, e.body[-1], want, benv, what)
             return
         try:
+            if self.infer and id(e) in self.pending:
+                self._want[id(e)] = want
             have = self.ty(e, env)
         except Unk as u:
             self.skip(rule, u.why)
@@ -382,8 +439,8 @@ class Checker:
                 self.bad(rule, '%s: type argument %s is not within the bound %s of %s' % (
                     what, terms.term_str(a), terms.term_str(b), p.name), None, arg=a, bound=b)
 
-    def check_args(self, e, d, m, env, what):
-        """ARITY + ARG for a call of function declaration d."""
+    def bind_args(self, e, d, what):
+        """ARITY for a call of function declaration d -> [(parameter, argument)] or None."""
         params = list(d.params)
         args = list(e.args)
         named = [a for a in args if getattr(a, 'name', None)]
@@ -394,14 +451,14 @@ class Checker:
         named_names = [str(a.name) for a in named]
         if any(n not in pnames for n in named_names) or len(set(named_names)) != len(named_names):
             self.bad('ARITY', '%s: named argument(s) %s for parameters %s' % (what, named_names, pnames), e)
-            return
+            return None
         rest = [p for p in params if not p.vararg and str(p.name) not in named_names]
         required = [p for p in rest if p.default is None]
         n = len(positional)
         if n < len(required) or (not has_vararg and n > len(rest)):
             self.bad('ARITY', '%s: %d positional + %d named argument(s) for parameters %s (%d required%s)' % (
                 what, n, len(named), pnames, len(required), ', vararg' if has_vararg else ''), e)
-            return
+            return None
         self.ok('ARITY')
         binding = [(params[pnames.index(str(a.name))], a) for a in named]
         if n == len(required):
@@ -413,6 +470,14 @@ class Checker:
             binding += [(vararg_p, a) for a in positional[len(required):]]
         else:
             self.skip('ARG', 'binding-unclear')
+            return None
+        return binding
+
+    def check_args(self, e, d, m, env, what, binding=None):
+        """ARITY + ARG for a call of function declaration d."""
+        if binding is None:
+            binding = self.bind_args(e, d, what)
+        if binding is None:
             return
         for p, a in binding:
             pt = terms.subst(self.t(p.param_type), m)
@@ -427,10 +492,219 @@ class Checker:
                 continue
             self.expect('ARG', a.expr, pt, env, '%s argument %s' % (what, p.name))
 
+    # ------------------------------------------------- inference of omitted type arguments (C03)
+    def solve_node(self, node, env, contextless=False):
+        """Type arguments a compiler infers for a constructor / generic call whose explicit type
+        arguments were omitted: {type parameter name: term}.  Sources, in order of strength:
+        the expected type (threaded by `expect`), invariant positions of parameter types against
+        the argument types, bare-variable parameters (lower bounds).  Raises Unk when the model
+        cannot decide; a type parameter that NOTHING determines is a definite inference failure
+        in Kotlin (it is `Nothing` in Scala and the bound/top in Java and Groovy)."""
+        ast = self.ast
+        nid = id(node)
+        if nid in self.solved:
+            r = self.solved[nid]
+            if isinstance(r, Unk):
+                raise r
+            return r
+        pend = self.pending.pop(nid, None)
+        want = self._want.pop(nid, None)
+        self.solved[nid] = Unk('inference-cycle')
+        try:
+            if isinstance(node, ast.New):
+                ct = self.t(node.class_type)
+                c = self.classes.get(ct[1])
+                if c is None or len(node.args) != len(c.fields):
+                    raise Unk('constructor-unknown')
+                tparams = list(c.type_parameters)
+                pairs = [(self.t(f.field_type), a) for f, a in zip(c.fields, node.args)]
+                ret = ('c', ct[1], tuple(V(str(p.name)) for p in tparams))
+                base, declared, what, binding, d = {}, list(ct[2]), 'new %s' % ct[1], None, None
+            else:
+                if pend is not None:
+                    d, base = pend[2], dict(pend[3])
+                else:
+                    r = self.resolve_call(node, env)
+                    if r is None or r[0] != 'fun' or r[3]:
+                        raise Unk('callee-unknown')
+                    d, base = r[1], dict(r[2])
+                tparams = list(d.type_parameters)
+                what = 'call of %s' % node.func
+                binding = self.bind_args(node, d, what)
+                if binding is None:
+                    raise Unk('binding-unclear')
+                pairs = []
+                for p, a in binding:
+                    pt = terms.subst(self.t(p.param_type), base)
+                    if p.vararg:
+                        if pt[0] == 'c' and len(pt[2]) == 1:
+                            pt = pt[2][0]
+                        else:
+                            raise Unk('vararg-type')
+                    pairs.append((pt, a.expr))
+                ret = terms.subst(self.fun_ret(d), base)
+                declared = [self.t(a) for a in (node.type_args or [])]
+            m = self._solve(tparams, pairs, ret, want, env, contextless, node, what)
+        except Unk as u:
+            self.solved[nid] = u
+            raise
+        self.solved[nid] = m
+        names = [str(p.name) for p in tparams]
+        got = [m[n] for n in names]
+        if declared and got == declared:
+            self.ok('INFER')
+        else:
+            k = 'inferred-differs:type-arguments'
+            self.unjudged[k] = self.unjudged.get(k, 0) + 1
+            self.check_targs('TARG', tparams, got, base, what + ' (inferred type arguments)')
+        full = dict(base)
+        full.update(m)
+        if isinstance(node, ast.New):
+            if any(a[0] == 'w' for a in got):
+                self.skip('ARG', 'constructor-of-projected-type')
+            else:
+                for (pt, a), fld in zip(pairs, self.classes[ret[1]].fields):
+                    self.expect('ARG', a, terms.subst(pt, full), env,
+                                'constructor argument %s of %s' % (fld.name, ret[1]))
+        else:
+            self.check_args(node, d, full, env, what, binding=binding)
+        return m
+
+    def _up_to(self, x, head):
+        """the supertype of term x (x itself included) whose head is `head`, or None."""
+        seen, todo = 0, [x]
+        while todo and seen < 40:
+            cur = todo.pop(0)
+            seen += 1
+            if cur[0] == 'c' and cur[1] == head:
+                return cur
+            if cur[0] == 'v':
+                b = cur[3] if cur[3] is not None else self.tv_bounds.get(cur[1])
+                if b is not None:
+                    todo.append(b)
+                continue
+            try:
+                todo.extend(terms.supers_of(cur, self.T))
+            except terms.Unknown:
+                return None
+        return None
+
+    def _unify(self, pat, t, names, eq):
+        if pat[0] == 'v' and pat[1] in names:
+            if t[0] == 'w':
+                if t[2] is not None:
+                    eq[pat[1]].append(t[2])
+            elif t[0] not in terms.UNJUDGED_KINDS:
+                eq[pat[1]].append(t)
+            return
+        if pat[0] == 'c' and t[0] == 'c' and pat[1] == t[1] and len(pat[2]) == len(t[2]):
+            for a, b in zip(pat[2], t[2]):
+                self._unify(a, b, names, eq)
+        elif pat[0] == 'w' and pat[2] is not None:
+            if t[0] == 'w' and t[2] is not None and t[1] == pat[1]:
+                self._unify(pat[2], t[2], names, eq)
+
+    def _solve(self, tparams, pairs, ret, want, env, contextless, node, what):
+        names = [str(p.name) for p in tparams]
+        nameset = set(names)
+        eq = {n: [] for n in names}
+        low = {n: [] for n in names}
+        incomplete = None
+        if want is not None:
+            w = want
+            while w[0] == 'w' and w[2] is not None:
+                w = w[2]
+            if w[0] == 'c' and ret[0] == 'c':
+                sup = self._up_to(ret, w[1])
+                if sup is not None:
+                    self._unify(sup, w, nameset, eq)
+            elif ret[0] == 'v' and ret[1] in nameset and w[0] in ('c', 'b', 'v'):
+                eq[ret[1]].append(w)
+        for pat, arg in pairs:
+            if not (terms.free_vars(pat) & nameset):
+                continue
+            if id(arg) in self.pending:
+                incomplete = 'nested-inference'
+                continue
+            try:
+                if isinstance(arg, self.ast.BottomConstant) and arg.t is not None:
+                    at = self.t(arg.t)            # printed with a cast to its recorded type
+                else:
+                    at = self.ty(arg, env)
+            except Unk as u:
+                incomplete = 'argument:' + u.why
+                continue
+            if at == ('bot',):
+                continue
+            if pat[0] == 'v':
+                low[pat[1]].append(at)
+            elif pat[0] == 'c':
+                sup = self._up_to(self.with_bounds(at), pat[1])
+                if sup is None:
+                    incomplete = 'argument-not-an-instance-of-parameter-class'
+                    continue
+                params = self.T.classes.get(pat[1], ([], []))[0]
+                sub = {n: [] for n in names}
+                self._unify(pat, strip_v(sup), nameset, sub)
+                variant = any(p[1] != INV for p in params) or terms.has_kind(pat, ('w',))
+                for n in names:
+                    (low if variant else eq)[n].extend(sub[n])
+            else:
+                incomplete = 'parameter-kind-' + pat[0]
+        m = {}
+        later = []
+        for n, p in zip(names, tparams):
+            if not eq[n] and not low[n] and p.bound is not None and (terms.free_vars(self.t(p.bound)) & nameset):
+                # `class A<T1, T2 : T1>`: the tool's documented model of the compilers -- T2 is inferred
+                # once the parameters its bound mentions are known
+                later.append((n, p))
+                continue
+            if eq[n]:
+                if any(c != eq[n][0] for c in eq[n]):
+                    raise Unk('conflicting-equalities')
+                m[n] = eq[n][0]
+            elif low[n]:
+                if any(c != low[n][0] for c in low[n]):
+                    raise Unk('join-needed')
+                m[n] = low[n][0]
+            elif incomplete:
+                raise Unk(incomplete)
+            elif contextless:
+                raise Unk('no-context')
+            elif self.lang == 'kotlin':
+                self.bad('INFER', '%s: nothing determines the omitted type argument for %s (no expected type, '
+                         'no argument mentions it)' % (what, n), node, kind='uninferable-type-argument')
+                raise Unk('uninferable')
+            elif self.lang == 'scala':
+                m[n] = ('bot',)
+            else:
+                raise Unk('default-inference')
+        for _ in range(len(later) + 1):
+            for n, p in list(later):
+                b = self.t(p.bound)
+                if all(v in m for v in terms.free_vars(b) & nameset):
+                    m[n] = terms.subst(b, m)
+                    later.remove((n, p))
+        if later:
+            raise Unk('cyclic-dependent-bounds')
+        return m
+
     # ------------------------------------------------------------------- walk
     def run(self):
+        if not self.infer:
+            return self._run()
+        # pass 1 collects what the omitted return types are inferred to be (a call may precede
+        # its callee in the walk); pass 2 is the one whose findings count
+        self._run()
+        self.findings, self.stats, self.unjudged = [], {}, {}
+        self.inf_var, self.solved, self.pending, self._want = {}, {}, {}, {}
+        self.block_env, self._keep = {}, []
+        return self._run()
+
+    def _run(self):
         ast = self.ast
         genv = Env(self)
+        self.genv = genv
         self.check_unique([str(n) for n in self.globals], 'global scope')
         for name, d in self.globals.items():
             self.check_ident(str(name), d)
@@ -441,6 +715,14 @@ class Checker:
                 self.visit_function(d, genv.child(), None)
             elif isinstance(d, ast.VariableDeclaration):
                 self.visit_vardecl(d, genv, is_global=True)
+        # inferable instantiations whose type nothing demanded (statement position, unjudged context)
+        for nid in list(self.pending):
+            if nid in self.pending:
+                node, env = self.pending[nid][0], self.pending[nid][1]
+                try:
+                    self.solve_node(node, env, contextless=True)
+                except Unk as u:
+                    self.skip('INFER', u.why)
         return self
 
     def check_ident(self, name, d):
@@ -627,9 +909,47 @@ class Checker:
                 self.expect('DEFAULT', p.default, self.t(p.param_type), env, 'default of %s' % p.name)
             env.names[str(p.name)] = p
         self.check_tyvars(fn.inferred_type, env, 'result of %s' % fn.name)
-        if fn.body is not None:
+        if fn.body is not None and self.infer and fn.ret_type is None:
+            self.visit_omitted_ret(fn, env)
+        elif fn.body is not None:
             self.visit_body(fn.body, env, self.t(fn.inferred_type), 'function %s' % fn.name)
         self.tv_bounds = saved
+
+    def visit_omitted_ret(self, fn, env):
+        """inference mode: the result type of a function without a declared one is what its body
+        synthesises (no expected type); only an expression body lets a compiler do that."""
+        ast = self.ast
+        void = terms.to_term(self.f.get_void_type())
+        recorded = self.t(fn.inferred_type)
+        if isinstance(fn.body, ast.Block):
+            self.visit_block(fn.body, env)
+            if recorded != void:
+                self.bad('INFER', 'function %s has a block body and a non-void result but no declared return type'
+                         % fn.name, fn, function=str(fn.name), kind='block-body')
+            self.inf_ret[id(fn)] = recorded
+            return
+        self.visit_expr(fn.body, env)
+        try:
+            if isinstance(fn.body, ast.BottomConstant) and fn.body.t is not None:
+                t = self.t(fn.body.t)
+            else:
+                t = self.ty(fn.body, env)
+            self.inf_ret[id(fn)] = t
+            self.judge_inferred('function', fn, t, recorded)
+        except Unk as u:
+            self.inf_ret.setdefault(id(fn), None)
+            self.skip('INFER', u.why)
+
+    def judge_inferred(self, what, d, got, recorded):
+        """information + one definite rule: the inferred type of an omitted annotation is compared
+        with the recorded one; a *different* type is not an error by itself (uses decide)."""
+        if got == recorded:
+            self.ok('INFER')
+        else:
+            k = 'inferred-differs:%s' % what
+            self.unjudged[k] = self.unjudged.get(k, 0) + 1
+            self.inferred_differs = getattr(self, 'inferred_differs', [])
+            self.inferred_differs.append((what, str(d.name), got, recorded))
 
     def visit_body(self, body, env, ret, what):
         ast = self.ast
@@ -666,7 +986,19 @@ class Checker:
         self.check_ident(str(d.name), d)
         self.check_tyvars(d.inferred_type, env, 'variable %s' % d.name)
         self.visit_expr(d.expr, env)
-        self.expect('INIT', d.expr, self.t(d.inferred_type), env, 'initializer of %s' % d.name)
+        if self.infer and d.var_type is None:
+            try:
+                if isinstance(d.expr, ast_BottomConstant(self)) and d.expr.t is not None:
+                    t = self.t(d.expr.t)          # printed with a cast to its recorded type
+                else:
+                    t = self.ty(d.expr, env)
+                self.inf_var[id(d)] = t
+                self.judge_inferred('variable', d, t, self.t(d.inferred_type))
+            except Unk as u:
+                self.inf_var.setdefault(id(d), None)
+                self.skip('INFER', u.why)
+        else:
+            self.expect('INIT', d.expr, self.t(d.inferred_type), env, 'initializer of %s' % d.name)
         if not is_global:
             if str(d.name) in env.own:
                 self.bad('UNIQUE', 'variable %s is declared twice in one scope' % d.name, d, name=str(d.name))
@@ -736,6 +1068,11 @@ class Checker:
                     c.name, len(e.args), len(c.fields)), e)
                 return
             self.ok('CONCRETE')
+            if self.infer and ct[2] and getattr(e.class_type, 'can_infer_type_args', False):
+                if id(e) not in self.solved:
+                    self.pending[id(e)] = (e, env, c, {})
+                self._keep.append(e)
+                return
             m = dict(zip([str(p.name) for p in c.type_parameters], ct[2]))
             if ct[2] and not getattr(e.class_type, 'can_infer_type_args', False):
                 self.check_targs('TARG', c.type_parameters, list(ct[2]), {}, 'new %s' % terms.term_str(ct))
@@ -788,6 +1125,14 @@ class Checker:
                 self.ok('INFER')
             if kind == 'fun':
                 mm = dict(m)
+                if d.type_parameters and self.infer and e.can_infer_type_args:
+                    if approx:
+                        self.skip('INFER', 'approximate')
+                        return
+                    if id(e) not in self.solved:
+                        self.pending[id(e)] = (e, env, d, mm)
+                    self._keep.append(e)
+                    return
                 if d.type_parameters:
                     if e.type_args and len(e.type_args) == len(d.type_parameters):
                         targs = [self.t(a) for a in e.type_args]
@@ -890,6 +1235,10 @@ class Checker:
             return
         # constants and the rest: nothing to resolve
         return
+
+
+def ast_BottomConstant(ck):
+    return ck.ast.BottomConstant
 
 
 class Env:
